@@ -101,7 +101,7 @@ pub fn check(hist: &History, cfg: &HybCfg) -> Vec<Complaint> {
                             // in the sense of the property only if its advice is in-memory-only *and* the key
                             // alternates placement; generators never alternate, so every insert supersedes.
                             let _ = (loc, storage_writer);
-                            let oversize = sz + 64 > cfg.max_entry_size();
+                            let oversize = cfg.unwritable(sz);
                             // An update that cannot be written to disk (it exceeds the per-entry limit)
                             // invalidates the older on-disk copy exactly like a delete does. Like a delete
                             // it is durable across a restart only with the tombstone log: the crate
@@ -112,7 +112,7 @@ pub fn check(hist: &History, cfg: &HybCfg) -> Vec<Complaint> {
                             let unwritable_later = hist.writes.iter().any(|w3| {
                                 w3.key == *key
                                     && (w3.kind == WKind::Remove
-                                        || matches!(w3.kind, WKind::Insert { sz, .. } if sz + 64 > cfg.max_entry_size()))
+                                        || matches!(w3.kind, WKind::Insert { sz, .. } if cfg.unwritable(sz)))
                                     && resp_or_inf(w) < w3.invoke
                                     && w3.resp.map(|r| r < l.invoke).unwrap_or(false)
                                     && l.epoch > w3.epoch
@@ -136,7 +136,7 @@ pub fn check(hist: &History, cfg: &HybCfg) -> Vec<Complaint> {
                                     w2.invoke,
                                     r2,
                                     l.invoke,
-                                    if oversize { " [newer value exceeds the per-entry disk limit]" } else { "" }
+                                    if oversize { " [newer value cannot be written: over the per-entry disk limit or refused by admission]" } else { "" }
                                 ),
                             ));
                         }
